@@ -7,6 +7,8 @@ INVARIANT CountIsDuplication
 INVARIANT GapIsOne
 INVARIANT AllGapIsCertain
 INVARIANT Bounds
+INVARIANT PaddingInvariant
+INVARIANT PoolingInvariant
 INVARIANT NonAlleleIsZero
 INVARIANT HomozygousIsHaplotype
 INVARIANT AlleleRelabelInvariant
